@@ -50,6 +50,11 @@ CLAIMS["C11"] = dict(
    text="Decides <PEP440 as Ord>::cmp as the six-stage lexicographic key of the statement (epoch, zero-padded release, pre with a<b<rc then number, post none-lowest, dev none-highest, local none-lowest) for all inputs, including implicit numbers read as 0 on both sides, the LocalSegment table (numeric below alphabetic, alphabetic lower-cased) and eq == (cmp == Equal). Spelling independence is decided in its structural part only (everything funnels into one struct; see C09); equality of concrete differently spelled inputs is a value law and is not decided.",
    note="Trusted: rustc MIR, zfacts, rules/cmpterm.py. Assumes std Ord impls and <[T] as Ord>::cmp semantics.",
    ref="4/C11")
+CLAIMS["C17"] = dict(
+   technique="table extraction from MIR (pattern constant -> strftime constant per guarded arm) judged through a semantic strftime map; origin tracing for the instant, the timestamp source and the calver core",
+   text="Decides the structural clauses for all 16 patterns at once: each documented pattern has its own arm and its chrono format means the field and padding of the statement; the instant is built with DateTime::<Utc>::from_timestamp; the template function's compact table agrees; ts() reads bumped_timestamp then last_timestamp; calver_core is [YYYY, MM, DD, Patch]. Calendar arithmetic itself (chrono) and the tokenizer on composite patterns are not decided.",
+   note="Trusted: rustc MIR, zfacts, the strftime semantic map in rules/c17.py.",
+   ref="4/C17")
 REASONS = {}
 
 def main():
